@@ -8,8 +8,22 @@ import (
 // substTable maps a real function (by ssa name) to the Go-source model in hcverif/models
 // that replaces it.
 var substTable = map[string]string{
-	"encoding/binary.Read": "BinaryRead",
-	"encoding/hex.EncodeToString": "HexEncodeToString",
+	"encoding/binary.Read":                          "BinaryRead",
+	"encoding/hex.EncodeToString":                   "HexEncodeToString",
+	"crypto/sha512.New":                             "SHA512New",
+	"crypto/sha256.New":                             "SHA256New",
+	"crypto/sha1.New":                               "SHA1New",
+	"crypto/md5.New":                                "MD5New",
+	"crypto/sha512.Sum512":                          "SHA512Sum512",
+	"crypto/md5.Sum":                                "MD5Sum",
+	"golang.org/x/crypto/hkdf.New":                  "HKDFNew",
+	"golang.org/x/crypto/chacha20poly1305.New":      "AEADNew",
+	"crypto/ed25519.GenerateKey":                    "Ed25519GenerateKey",
+	"crypto/ed25519.Sign":                           "Ed25519Sign",
+	"crypto/ed25519.Verify":                         "Ed25519Verify",
+	"golang.org/x/crypto/curve25519.ScalarBaseMult": "ScalarBaseMult",
+	"golang.org/x/crypto/curve25519.ScalarMult":     "ScalarMult",
+	"crypto/rand.Read":                              "RandRead",
 }
 
 func registerSubst(P *Program) error {
